@@ -6,6 +6,7 @@ import (
 	"fmt"
 	"io"
 	"math/big"
+	"sync"
 
 	"gitlab.com/yawning/secp256k1-voi/secec"
 	"gitlab.com/yawning/secp256k1-voi/secec/bitcoin"
@@ -365,6 +366,130 @@ func runC08(r *mon.Run) {
 			}
 			if !oracle.ECDSAVerify(Q, dig, pr, ps) || !priv.PublicKey().Verify(dig, sig, &secec.ECDSAOptions{Encoding: enc, RejectMalleable: true}) {
 				w.Fail("c08/short:verify", fmt.Sprintf("the encoded signature (encoding %d) does not verify", enc), det...)
+			}
+		}
+	})
+
+	// --- every hash selector with a digest of the matching size, every encoding, SelfVerify off
+	// and on: same bytes, valid over the leftmost 32 bytes of the digest
+	r.Require("c08:hash:SHA-224", "c08:hash:SHA-384", "c08:hash:SHA-512", "c08:hash:plain-crypto.Hash-opts")
+	r.Each("c08/hash-options", r.N(240, 8000), func(w *mon.W, i int) {
+		rng := w.Rng
+		d, _ := keyValue(rng)
+		priv := mustPriv(d)
+		Q := oracle.MulG(d)
+		h := []crypto.Hash{crypto.SHA384, crypto.SHA512, crypto.SHA224, crypto.SHA512_256, crypto.SHA3_256, crypto.SHA3_512}[i%6]
+		dig := rng.Bytes(h.Size())
+		enc := secec.SignatureEncoding((i / 6) % 3)
+		entropy := rng.Bytes(32)
+		w.Class("c08:hash:" + h.String())
+		w.Case(true, []byte("hash-options"), b32(d), dig, []byte{byte(h), byte(enc)})
+		det := []any{"d", hb(d), "digest", hx(dig), "hash", h.String(), "encoding", int(enc)}
+		var sigs [][]byte
+		for _, sv := range []bool{false, true} {
+			sig, err := priv.Sign(&fixedReader{data: entropy}, dig, &secec.ECDSAOptions{Hash: h, Encoding: enc, SelfVerify: sv})
+			if h.Size() < 32 {
+				// digests under 32 bytes are inadmissible whatever the selector says
+				if err == nil || sig != nil {
+					w.Fail("c08/hash-options:short", fmt.Sprintf("Sign accepted a %d-byte digest with Hash=%v", len(dig), h), det...)
+				}
+				continue
+			}
+			if err != nil {
+				w.Fail("c08/hash-options:err", fmt.Sprintf("Sign(Hash=%v, %d-byte digest, encoding %d, SelfVerify=%v) failed: %v", h, len(dig), enc, sv, err), det...)
+				continue
+			}
+			sigs = append(sigs, sig)
+			if !priv.PublicKey().Verify(dig, sig, &secec.ECDSAOptions{Hash: h, Encoding: enc, RejectMalleable: true}) {
+				w.Fail("c08/hash-options:verify", fmt.Sprintf("the signature made with Hash=%v does not verify with the same options", h), det...)
+			}
+			var pr, ps *big.Int
+			switch enc {
+			case secec.EncodingASN1:
+				pr, ps, _ = oracle.DERParseSigStrict(sig)
+			default:
+				if len(sig) >= 64 {
+					pr, ps = oracle.FromBytes(sig[:32]), oracle.FromBytes(sig[32:64])
+				}
+			}
+			if pr == nil || !oracle.ECDSAVerify(Q, dig, pr, ps) {
+				w.Fail("c08/hash-options:predicate", fmt.Sprintf("the signature made with Hash=%v does not satisfy the predicate over the leftmost 32 digest bytes", h), det...)
+			}
+		}
+		if len(sigs) == 2 && !bytes.Equal(sigs[0], sigs[1]) {
+			w.Fail("c08/hash-options:selfverify", fmt.Sprintf("Hash=%v: turning on SelfVerify changed the output", h), det...)
+		}
+		// a bare crypto.Hash as SignerOpts (default encoding)
+		if i%2 == 0 && h.Size() >= 32 {
+			w.Class("c08:hash:plain-crypto.Hash-opts")
+			sig, err := priv.Sign(&fixedReader{data: entropy}, dig, h)
+			if err != nil {
+				w.Fail("c08/hash-options:plain", fmt.Sprintf("Sign(opts = crypto.Hash %v) failed: %v", h, err), det...)
+			} else if pr, ps, ok := oracle.DERParseSigStrict(sig); !ok || !oracle.ECDSAVerify(Q, dig, pr, ps) {
+				w.Fail("c08/hash-options:plain", "Sign(opts = crypto.Hash) did not produce a valid DER signature", det...)
+			}
+		}
+	})
+
+	// --- signing after failures, from several goroutines on one key object: an aborted
+	// attempt (entropy source fails) must leave nothing behind that a later or a concurrent
+	// signature picks up (pooled scratch returned twice or dirty, state kept in the key)
+	r.Require("c08:after-failure:concurrent-signs")
+	r.Seq("c08/sign-after-failure", r.N(6, 80), func(w *mon.W, i int) {
+		rng := w.Rng
+		d, _ := keyValue(rng)
+		priv := mustPriv(d)
+		Q := oracle.MulG(d)
+		for f := 0; f < 4; f++ {
+			j := []int{0, 1, 17, 31}[f]
+			if _, _, _, err := priv.SignRaw(&fixedReader{data: rng.Bytes(j), errAfter: errScripted}, rng.Bytes(32)); err == nil {
+				w.Fail("c08/after-failure:accepted", fmt.Sprintf("SignRaw succeeded although the entropy source failed after %d bytes", j))
+			}
+		}
+		const G, per = 6, 8
+		type job struct {
+			dig, ent []byte
+			r, s     *big.Int
+			err      error
+		}
+		jobs := make([][]job, G)
+		for g := range jobs {
+			for j := 0; j < per; j++ {
+				jobs[g] = append(jobs[g], job{dig: rng.Bytes(32), ent: rng.Bytes(32)})
+			}
+		}
+		var wg sync.WaitGroup
+		gate := make(chan struct{})
+		for g := 0; g < G; g++ {
+			wg.Add(1)
+			go func(g int) {
+				defer wg.Done()
+				<-gate
+				for j := range jobs[g] {
+					lr, ls, _, err := priv.SignRaw(&yieldingReader{data: jobs[g][j].ent}, jobs[g][j].dig)
+					jobs[g][j].err = err
+					if err == nil {
+						jobs[g][j].r, jobs[g][j].s = bigFromScalar(lr), bigFromScalar(ls)
+					}
+				}
+			}(g)
+		}
+		close(gate)
+		wg.Wait()
+		w.ClassN("c08:after-failure:concurrent-signs", G*per)
+		for g := range jobs {
+			for j, jb := range jobs[g] {
+				w.Case(true, []byte("after-failure"), b32(d), jb.dig, jb.ent)
+				if jb.err != nil || !oracle.ECDSAVerify(Q, jb.dig, jb.r, jb.s) {
+					w.Fail("c08/after-failure:verify", fmt.Sprintf("goroutine %d call %d (one key object, after 4 aborted signatures): the signature does not verify over ITS digest under the signer's key (err %v)", g, j, jb.err), "d", hb(d), "digest", hx(jb.dig))
+					return
+				}
+				// and it is the same signature the call gives when run alone
+				lr, ls, _, err := priv.SignRaw(&fixedReader{data: jb.ent}, jb.dig)
+				if err != nil || bigFromScalar(lr).Cmp(jb.r) != 0 || bigFromScalar(ls).Cmp(jb.s) != 0 {
+					w.Fail("c08/after-failure:determinism", fmt.Sprintf("goroutine %d call %d: the concurrent signature differs from the one the same (key, digest, entropy) gives alone", g, j), "d", hb(d), "digest", hx(jb.dig), "entropy", hx(jb.ent))
+					return
+				}
 			}
 		}
 	})
